@@ -38,14 +38,16 @@ def case_strategy(draw):
     mode = draw(st.sampled_from(["auto", "cross", "cross"]))
     cfg, theta_max = draw(gen.config_case())
     edges = gen.binning_edges_reference(cfg, cfg["cosmology"])
+    many = draw(st.integers(0, 9)) == 0  # occasionally 10-12 patches (two-digit patch ids), few objects each
+    size = dict(min_patches=10, max_patches=12, max_per_patch=2) if many else {}
     if mode == "auto":
-        scene = draw(gen.scene_case(theta_max, edges, 2, need_z=(0, 1)))
+        scene = draw(gen.scene_case(theta_max, edges, 2, need_z=(0, 1), **size))
         opts = {"count_rr": draw(st.booleans())}
     else:
         rands = draw(st.sampled_from(["unk", "ref", "both"]))
         ncat = 2 + (2 if rands == "both" else 1)
         need = (0,) if rands == "unk" else (0, 2)
-        scene = draw(gen.scene_case(theta_max, edges, ncat, need_z=need))
+        scene = draw(gen.scene_case(theta_max, edges, ncat, need_z=need, **size))
         opts = {"rands": rands}
     return {"mode": mode, "cfg": cfg, "theta_max": theta_max, "scene": scene, "opts": opts}
 
@@ -191,7 +193,7 @@ def compare(case, cfg, cfs, ck: Checker):
             if g1.shape != sw1.shape or not np.allclose(g1, sw1, rtol=1e-12, atol=0) or not np.allclose(g2, sw2, rtol=1e-12, atol=0):
                 ck.fail(f"sum_weights:{'auto' if auto else 'cross'}", f"{name}: got {g1.tolist()} / {g2.tolist()}, expected {sw1.tolist()} / {sw2.tolist()}")
     ck.nontrivial = nontrivial
-    ck.cls(f"mode:{case['mode']}", f"unit:{c['unit']}", f"method:{c['method']}", f"closed:{closed}", f"patches:{npatch}", f"scales:{ns}")
+    ck.cls(f"mode:{case['mode']}", f"unit:{c['unit']}", f"method:{c['method']}", f"closed:{closed}", f"patches:{npatch if npatch < 10 else '>=10'}", f"scales:{ns}")
     if c["rweight"] is not None:
         ck.cls("rweight", "res<8" if c["resolution"] + 1 + 2 * ns < 8 else "res>=8")
     if edges[0] < 0.05:
